@@ -172,6 +172,12 @@ pub const DLT_SERIAL_HEADER_SIZE: usize = 4; // just the pattern
 /// maximum size of a DLT message with a storage header:
 pub const DLT_MAX_STORAGE_MSG_SIZE: usize = DLT_STORAGE_HEADER_SIZE + u16::MAX as usize;
 
+/// low water mark to use for buffered readers feeding the DLT msg parsers:
+/// a maximum size msg plus the 4 bytes (header pattern of the next msg) that the corrupt msg
+/// heuristic looks ahead. With less look-ahead the result of the heuristic depends on how the
+/// reader chunks the data.
+pub const DLT_MSG_PARSER_LOW_MARK: usize = DLT_MAX_STORAGE_MSG_SIZE + 4;
+
 pub const DLT_MIN_STD_HEADER_SIZE: usize = 4;
 pub const MIN_DLT_MSG_SIZE: usize = DLT_STORAGE_HEADER_SIZE + DLT_MIN_STD_HEADER_SIZE;
 pub const DLT_EXT_HEADER_SIZE: usize = 10;
